@@ -216,3 +216,28 @@ Lemma stream_without_descriptor ds :
   (Forall (fun d => tag d <> 0x0E) ds -> max_bit_rate ds = Ok 0) /\
   (Forall (fun d => tag d <> 0x7F) ds -> is_ttml_subtitling ds = false).
 Proof. split. apply stream_no_max_bit_rate. apply stream_no_ttml. Qed.
+
+(* ISO 639: first entry followed by ANY bytes (subsumes `iso639`, whose tail is a list of further entries) *)
+Lemma iso639_any_tail l a rest : length l = 3%nat -> is_bytes l ->
+  decode_iso639_language_code (mk 0x0A (l ++ a :: rest)) = Ok l /\
+  decode_iso639_audio_type (mk 0x0A (l ++ a :: rest)) = Ok a.
+Proof. intros H1 H2. destruct (lang3_inv l (conj H1 H2)) as (x & y & z & ->).
+  unfold decode_iso639_language_code, decode_iso639_audio_type. cbn [app tag data].
+  change (LANGUAGE =? 10) with true. change (10 =? LANGUAGE) with true.
+  rewrite slice03, leb3, leb4, idx3. split; reflexivity. Qed.
+
+(* IsTTMLSubtitling: exactly when some descriptor has tag 0x7F and descriptor_tag_extension 0x20 *)
+Lemma stream_ttml_iff ds :
+  is_ttml_subtitling ds = true <-> exists d rest, In d ds /\ tag d = 0x7F /\ data d = 0x20 :: rest.
+Proof. induction ds as [|d ds IH]; cbn [is_ttml_subtitling].
+  - split; [discriminate|]. intros (d & rest & [] & _).
+  - destruct (is_ttml_subtitling_descriptor d && is_ttml_desc_tag_extension d) eqn:E.
+    + split; [|reflexivity]. intros _. apply andb_true_iff in E. destruct E as [E1 E2].
+      unfold is_ttml_subtitling_descriptor in E1. apply N.eqb_eq in E1.
+      unfold is_ttml_desc_tag_extension in E2. destruct (data d) as [|b rest] eqn:Ed; [discriminate|].
+      apply N.eqb_eq in E2. subst b. exists d, rest. split; [left; reflexivity|]. split; assumption.
+    + rewrite IH. split.
+      * intros (d' & rest & Hin & H). exists d', rest. split; [right; exact Hin|exact H].
+      * intros (d' & rest & [->|Hin] & Ht & Hd); [|exists d', rest; auto].
+        exfalso. unfold is_ttml_subtitling_descriptor, is_ttml_desc_tag_extension in E. rewrite Ht, Hd in E.
+        discriminate. Qed.
